@@ -1,5 +1,5 @@
 (* C02 -- Variable tree mirrors the module tree; init, apply and shape-only init agree.  (PARTIAL: see the evidence notes) *)
-From Flaxm Require Import Lib.Harness Model.Filters Model.Linen Proofs.Linen.
+From Flaxm Require Import Lib.Harness Model.Filters Model.Linen Proofs.Linen Proofs.LinenInit.
 
 (* a name clash between submodules, between a submodule and a variable, or between two variables of one collection
    raises NameInUse; the same name in two different collections is allowed *)
@@ -32,6 +32,42 @@ Theorem C02_wrong_shape_raises : forall ev call p input fr s x nm n c v,
   step ev call p input fr s (SParam x nm n c) = Err EParamShape.
 Proof. exact wrong_shape_param_raises. Qed.
 Print Assumptions C02_wrong_shape_raises.
+
+(* the variables returned by init are exactly what apply consumes: for every module program that declares, sows and
+   perturbs but never overwrites a variable (no put_variable), whatever `mutable` the first run used and whatever
+   variables it started from ([] for init), applying the variables it left with the same input and nothing mutable
+   returns the same output, finds every parameter and variable (a missing one would raise), runs no initialiser and
+   returns the variables unchanged: nothing is created, dropped or renamed *)
+Theorem C02_apply_reproduces_init : forall ev F top vars x y s1,
+  (forall c, in_filter F c = false) -> ro_classes (e_classes ev) = true ->
+  apply_m ev top vars x = Ok (y, s1) ->
+  exists s2, apply_m (immut F ev) top (s_vars s1) x = Ok (y, s2) /\ s_vars s2 = s_vars s1 /\ pinits (s_trace s2) = [].
+Proof. exact apply_reproduces_init. Qed.
+Print Assumptions C02_apply_reproduces_init.
+
+(* the restriction is needed: a program that overwrites a variable it read gives another output the second time *)
+Example C02_apply_reproduces_init_needs_ro :
+  let top : mclass := ([SVar 1 5 (NExp 0) 1 2; SVarSet 5 (NExp 0) (EAdd (ELocal 1) (ELocal 1))], EMul (ELocal 1) EInput) in
+  let ev := mkEnv (FBool true) [0%N] [(0%N, top)] 0 4 in
+  match apply_m ev 0 [] [3]%Z with
+  | Ok (y, s1) => y = [6]%Z /\ match apply_m (immut (FBool false) ev) 0 (s_vars s1) [3]%Z with Err EModifyScope => True | _ => False end /\
+                  match apply_m ev 0 (s_vars s1) [3]%Z with Ok (y2, _) => y2 = [12]%Z | _ => False end
+  | Err _ => False end.
+Proof. vm_compute. repeat split; reflexivity. Qed.
+
+(* non-vacuity of C02_apply_reproduces_init: nested modules, a shared instance called twice, sow and perturb *)
+Example C02_init_apply_example :
+  let leaf : mclass := ([SParam 1 (NExp 0) 0 2; SVar 2 5 (NExp 1) 1 7; SSow 6 (NExp 2) (ELocal 1); SPerturb 3 (NExp 3) (EMul (ELocal 1) EInput)],
+                        EAdd (ELocal 3) (ELocal 2)) in
+  let top : mclass := ([SChild 1 7 None; SChild 2 7 (Some 9%N); SCall 1 1 EInput; SCall 2 2 (ELocal 1); SCall 3 1 (ELocal 2)], ELocal 3) in
+  let ev := mkEnv (FDeny (FName 6)) [0%N] [(7%N, leaf); (0%N, top)] 0 4 in
+  ro_classes (e_classes ev) = true /\
+  match apply_m ev 0 [] [3]%Z with
+  | Ok (y, s1) => match apply_m (immut (FBool false) ev) 0 (s_vars s1) [3]%Z with
+                  | Ok (y2, s2) => y2 = y /\ y = [73]%Z /\ s_vars s2 = s_vars s1 /\ length (pinits (s_trace s1)) = 2 /\ pinits (s_trace s2) = []
+                  | Err _ => False end
+  | Err _ => False end.
+Proof. vm_compute. repeat split; reflexivity. Qed.
 
 (* deterministic automatic names: an unnamed child of class K created when k unnamed children of K exist gets the
    name K_k, and its scope is the parent's path extended by that name *)
